@@ -87,9 +87,10 @@ def internal_requests(ck: common.Check) -> int:
     connected-only policy (discarded unless a connection exists within one second; C02 statement)."""
     import pyairtouch.comms.socket as psock
     seen = 0
-    for gen in (4, 5):
-        for faulty in (False, True):
-            inst = console.simple_installation(gen, 2, 5)
+    shapes = [(4, 2, 5, False), (4, 2, 5, True), (4, 1, 16, False), (5, 2, 5, False), (5, 2, 5, True), (5, 1, 0, False), (5, 3, 0, True), (5, 1, 16, False)]
+    for gen, n_acs, n_zones, faulty in shapes:
+        if True:
+            inst = console.simple_installation(gen, n_acs, n_zones)
             if faulty:
                 import dataclasses
                 for a in list(inst.ac_status):
@@ -119,7 +120,7 @@ def internal_requests(ck: common.Check) -> int:
                             ck.violation("a request the client issues on its own is not sent with the connected-only policy",
                                          {"kind": "api-internal-policy", "gen": gen, "phase": name, "message": type(msg).__name__ + " " + repr(msg)[:120],
                                           "policy": {"max_retries": pol.max_retries, "max_lifetime": pol.max_lifetime},
-                                          "ac_in_fault_at_connect": faulty,
+                                          "ac_in_fault_at_connect": faulty, "acs": n_acs, "zones": n_zones,
                                           "trigger": {"class": "api-internal-policy", "gen": gen, "phase": name, "message": type(msg).__name__}})
                     lo = hi
                 if r != ("ok", True) or len(rig.sock.sends) < 9:
